@@ -35,12 +35,17 @@ SCHEMAS = {
     # S5: line 1 is a comment directly followed by the proto statement; S6: first statement before any blank line
     "s5": "// Schema five: telemetry frames.\nproto five\nmessage F {\n    uint3 a = 1\n}\n",
     "s6": "proto six\n// about G\nmessage G' {\n    byte[3] raw = 1\n    int9[2]' v = 2\n}\n",
+    # s7: a parse error in the middle of a message after a pending comment; s8: the error is raised inside an IMPORTED file
+    "s7": "proto seven\n// pending comment\nmessage H {\n    uint3 a = 1\n    // another pending comment\n    Nope b = 2\n}\n",
+    "s8": "proto eight\n\nimport \"broken.bitproto\"\n\nmessage I {\n    bool a = 1\n}\n",
 }
+BROKEN = "proto broken\n// comment before the failing statement\nmessage B {\n    message Deep {\n        uint0 x = 1\n    }\n}\n"
 
 EVENTS = [
     ("compile", "s1", "c", False), ("compile", "s1", "py", False), ("compile", "s2", "c", False), ("compile", "s2", "py", False),
     ("compile", "s3", "go", False), ("compile", "s4", "c", True), ("compile", "s1", "go", False), ("compile", "s5", "py", False),
     ("compile", "s6", "c", False), ("parse", "s2", None, False), ("lint", "s3", None, False), ("compile", "s4", "go", True),
+    ("fail", "s7", "py", False), ("fail", "s8", "c", False),
 ]
 
 
@@ -50,6 +55,8 @@ def write_schemas(d):
             f.write(t)
     with open(os.path.join(d, "shared.bitproto"), "w") as f:
         f.write(LIB)
+    with open(os.path.join(d, "broken.bitproto"), "w") as f:
+        f.write(BROKEN)
 
 
 def hash_dir(d):
@@ -96,6 +103,14 @@ def do_event(d, ev, k):
         if kind == "lint":
             lint(parse(path))
             return None
+        if kind == "fail":
+            # an invalid schema: the compilation must fail with a parser error and leave nothing behind
+            from bitproto.errors import ParserError
+            try:
+                parse(path)
+            except ParserError:
+                return None
+            raise RuntimeError("invalid schema %s was accepted" % s)
         out = os.path.join(d, "out_%d_%d" % (os.getpid(), k))
         os.makedirs(out, exist_ok=True)
 
